@@ -13,7 +13,7 @@ def main():
     m = json.load(open(os.path.join(V, 'selftest', 'matrix.json')))
     checks = [f'C{i:02d}' for i in range(1, 21)]
     lines = []
-    lines.append('Legend: `R` refuted (witness or definite structural mismatch), `U` undecided = reported as a violation (fail closed), `.` silent, `E` internal error. Rows: seeded change (a,b first round; c,d later rounds) or reverted fix; `own` = the check of the property the change was written against.')
+    lines.append('Legend: `R` refuted (witness or definite structural mismatch), `U` undecided = reported as a violation (fail closed), `.` silent, `E` internal error. Rows: seeded change (a-d: rounds 1-3, functional slips; e,f: round 4, subtle numeric degradations; g,h: round 5, loop restructurings / assertions that can fire / numerically worse rewrites) or reverted fix; `own` = the check of the property the change was written against.')
     lines.append('')
     lines.append('| change | own | ' + ' | '.join(c[1:] for c in checks) + ' | what it is |')
     lines.append('|---|---|' + '|'.join(['---'] * len(checks)) + '|---|')
@@ -35,7 +35,7 @@ def main():
                 own_tot += 1; own_hit += o in ('R', 'U')
         lines.append(f"| {name} | {o} | " + ' | '.join(cells) + f" | {what} |")
     lines.append('')
-    lines.append(f"Own-check detection: {own_hit} of {own_tot} seeded changes (neutralised ones excluded); every reverted fix is reported by the check that found the defect.")
+    lines.append(f"Own-check detection: {own_hit} of {own_tot} seeded changes (neutralised ones excluded); every reverted fix is reported by the check that found the defect.  Cells of the slow checks (C03, C09, C10, C13, C14, C20) that were silent in an earlier complete run were not all re-run for the last engine version (`seed_matrix.py --reduced`); every other cell is from the final version.")
     bp = os.path.join(V, 'selftest', 'benign_matrix.json')
     if os.path.exists(bp):
         b = json.load(open(bp))
